@@ -320,12 +320,13 @@ def gen_run(seed: int, tier: str, sub: str) -> dict:
     # focus rotate through the workload's special cases, so that a batch of a hundred runs has
     # covered every shape a dozen times and every special function a few times
     idx = seed & 0xFFFF
-    slot = idx % 8
-    rot = idx // 8
+    slot = idx % 10
+    rot = idx // 10
     m = meta.get('main')
     shape = 'free'
     if sub != 'captured':
-        shape = {0: 'sweep', 1: 'sweep', 2: 'stampede', 3: 'failure', 4: 'focus', 5: 'focus', 6: 'failure'}.get(slot, 'free')
+        shape = {0: 'sweep', 1: 'sweep', 2: 'stampede', 3: 'failure', 4: 'focus', 5: 'boundary', 6: 'failure', 7: 'derive',
+                 9: 'focus'}.get(slot, 'free')
     cfg['shape'] = shape
     cfg['sweep'] = shape == 'sweep'
     cfg['stampede'] = shape == 'stampede'
@@ -385,6 +386,56 @@ def gen_run(seed: int, tier: str, sub: str) -> dict:
             r.shuffle(ctxs)
             for cname in ctxs:
                 call_pool.append((sns, name, args, cname))
+    elif shape == 'derive':
+        # transformed copies as history: the source is evaluated, a copy is derived from it (strategies
+        # and user rewrite rules), the copy and the source are evaluated again through the same and
+        # through a fresh interpreter -- in every thread, same calls, so they also meet concurrently
+        cfg['nthreads'] = nthreads = r.choice([1, 2, 2, 3])
+        dnames = sorted(n for n in m['DERIVABLE'] if n in m['SIG'])
+        names = [dnames[(3 * rot + q) % len(dnames)] for q in range(3)]
+        picks = {name: (catalogue('main', name, m['SIG'][name])[rot % 4], r.choice(CTX_NAMES)) for name in names}
+        threads = []
+        for t in range(nthreads):
+            ops = []
+            for name in (names if t % 2 == 0 else names[::-1]):
+                cargs, cctx = picks[name]
+                root = {'root': ['main', name], 'chain': []}
+
+                def call(fn, key, rt, **kw):
+                    return dict({'op': 'call', 'fn': fn, 'key': key, 'args': cargs, 'ctx': cctx, 'rt': rt, 'cancel': None}, **kw)
+                ops.append(call(['main', name], root, 'default'))
+                ders = m['DERIVABLE'][name]
+                for q in range(len(ders)):
+                    strat, kw = ders[(q + t) % len(ders)]
+                    ref = ['d', t, len(ops)]
+                    key = {'root': ['main', name], 'chain': [[strat, kw]]}
+                    ops.append({'op': 'derive', 'src': ['main', name], 'strategy': strat, 'kw': kw, 'ref': ref, 'key': key})
+                    ops.append(call(ref, key, 'default'))
+                    ops.append(call(['main', name], root, 'fresh' if q % 2 else 'default', h2=True))
+                    ops.append(call(ref, key, 'fresh' if q % 2 == 0 else 'own'))
+            threads.append(ops)
+        return {'seed': seed, 'cfg': cfg, 'threads': threads, 'schedule': None, 'sched_seed': r.randrange(1 << 62)}
+    elif shape == 'boundary':
+        # boundary sweep: four of the functions that take or return containers, every argument tuple of
+        # their catalogues (all representations, aliased sub-lists), the callers overwriting what they get
+        # back -- what crosses the Python boundary in either direction, systematically rather than sampled
+        cfg['nthreads'] = nthreads = r.choice([1, 1, 2])
+        cfg['mean_quantum'] = r.choice([150, 600, 2500])
+        cfg['starve'] = 0.0
+        cfg['opcode'] = False
+        cfg['scribble'] = True
+        names = rotate(m['BOUNDARY'], rot, 4)
+        threads = []
+        for t in range(nthreads):
+            ops = []
+            for name in names:
+                cname = r.choice(CTX_NAMES)
+                cat = catalogue('main', name, m['SIG'][name])
+                for e in range(CATALOGUE):
+                    ops.append({'op': 'call', 'fn': ['main', name], 'key': {'root': ['main', name], 'chain': []},
+                                'args': cat[(e + t) % CATALOGUE], 'ctx': cname, 'rt': 'default' if e % 4 else 'own', 'cancel': None})
+            threads.append(ops)
+        return {'seed': seed, 'cfg': cfg, 'threads': threads, 'schedule': None, 'sched_seed': r.randrange(1 << 62)}
     elif shape == 'failure':
         # failure runs: programs that fail half-way (below a call, inside nested `with` blocks, in a
         # primitive) mixed with functions computing under the caller's or the default context
@@ -510,6 +561,9 @@ def gen_run(seed: int, tier: str, sub: str) -> dict:
 # executing a run (in a fresh fork of the template)
 
 def _apply_strategy(f, strat: str, kw: dict):
+    if strat.startswith('rw_'):
+        # a user rewrite rule (an expression rewrite: the statement stays, no statement edit is reported)
+        return load_ns('main')['rewrite_rule'](strat).apply(f)
     from fpy2 import strategies as S
     fn = getattr(S, strat)
     if strat == 'split':
